@@ -192,6 +192,14 @@ func pluginRefs(b []byte) ([]pref18, bool) {
 			}
 		case "PatchStrategicMergeTransformer":
 			scalarOrSeq(get("paths"), "PK8s")
+		case "HelmChartInflationGenerator":
+			scalarOrSeq(get("valuesFile"), "PFile")
+			scalarOrSeq(get("additionalValuesFiles"), "PFile")
+			if home := get("chartHome"); home != nil {
+				out = append(out, pref18{"PHome", home.YNode().Value})
+			} else {
+				out = append(out, pref18{"PHomeDefault", ""})
+			}
 		}
 	}
 	return out, true
@@ -327,8 +335,23 @@ func makeTables18(t *tree18) *tables18 {
 				}
 			}
 		}
-		if len(k.HelmCharts) > 0 || k.HelmGlobals != nil || len(k.HelmChartInflationGenerator) > 0 { //nolint:staticcheck
-			out("helm")
+		for _, h := range k.HelmChartInflationGenerator { //nolint:staticcheck
+			if remoteLike(h.Values) || remoteLike(h.ChartHome) {
+				out("remote-like entry")
+			}
+		}
+		for _, h := range k.HelmCharts {
+			if remoteLike(h.ValuesFile) {
+				out("remote-like entry")
+			}
+			for _, a := range h.AdditionalValuesFiles {
+				if remoteLike(a) {
+					out("remote-like entry")
+				}
+			}
+		}
+		if k.HelmGlobals != nil && remoteLike(k.HelmGlobals.ChartHome) {
+			out("remote-like entry")
 		}
 	}
 	for _, refs := range tb.plugs {
@@ -377,10 +400,22 @@ func kustTerm(k *types.Kustomization) string {
 	for _, r := range k.Replacements {
 		repl = append(repl, r.Path)
 	}
+	var hinfl, hcharts []string
+	for _, h := range k.HelmChartInflationGenerator { //nolint:staticcheck
+		hinfl = append(hinfl, fmt.Sprintf("(%s, %s)", coqStr(h.Values), coqStr(h.ChartHome)))
+	}
+	for _, h := range k.HelmCharts {
+		hcharts = append(hcharts, fmt.Sprintf("(%s, %s)", coqStr(h.ValuesFile), coqStrList(h.AdditionalValuesFiles)))
+	}
+	hglob := "None"
+	if k.HelmGlobals != nil {
+		hglob = "(Some " + coqStr(k.HelmGlobals.ChartHome) + ")"
+	}
 	//nolint:staticcheck
-	return fmt.Sprintf("(mkKust %s %s %s %s %s %s [%s] [%s] %s %s %s %s %s %s %s)", oa,
+	return fmt.Sprintf("(mkKust %s %s %s %s %s %s [%s] [%s] [%s] [%s] %s %s %s %s %s %s %s %s)", oa,
 		coqStrList(k.Bases), coqStrList(k.Components), coqStrList(k.Configurations), coqStrList(k.Crds),
 		coqStrList(k.Resources), strings.Join(cms, "; "), strings.Join(secs, "; "),
+		strings.Join(hinfl, "; "), strings.Join(hcharts, "; "), hglob,
 		coqStrList(pats), coqStrList(p69), coqStrList(psm), coqStrList(repl),
 		coqStrList(k.Generators), coqStrList(k.Transformers), coqStrList(k.Validators))
 }
@@ -476,7 +511,7 @@ func listingTerm(l []fsEntry, tb *tables18, g geo18) string {
 	return "[" + strings.Join(parts, "; ") + "]"
 }
 
-var opCode18 = map[string]int{"Exists": 0, "IsDir": 1, "Mkdir": 2, "MkdirAll": 3, "CleanedAbs": 4, "ReadFile": 5, "WriteFile": 6, "RemoveAll": 7}
+var opCode18 = map[string]int{"Exists": 0, "IsDir": 1, "Mkdir": 2, "MkdirAll": 3, "CleanedAbs": 4, "ReadFile": 5, "WriteFile": 6, "RemoveAll": 7, "Walk": 8}
 
 func traceTerm(tr []fsEvent) (string, bool) {
 	parts := make([]string, len(tr))
@@ -636,10 +671,86 @@ func blankPaths(k *types.Kustomization) {
 	for i := range k.Replacements {
 		k.Replacements[i].Path = ""
 	}
+	for i := range k.HelmCharts {
+		k.HelmCharts[i].ValuesFile = ""
+		z(k.HelmCharts[i].AdditionalValuesFiles)
+	}
+	if k.HelmGlobals != nil {
+		k.HelmGlobals.ChartHome = ""
+	}
+	for i := range k.HelmChartInflationGenerator { //nolint:staticcheck
+		k.HelmChartInflationGenerator[i].Values = ""    //nolint:staticcheck
+		k.HelmChartInflationGenerator[i].ChartHome = "" //nolint:staticcheck
+	}
 }
 
 func isKustName(b string) bool {
 	return b == "kustomization.yaml" || b == "kustomization.yml" || b == "Kustomization"
+}
+
+// chartHomes18 lists, per kustomization root directory, the LOCAL chart home directories that
+// copyChartHome must mirror (existing directories named by helmGlobals / helmCharts default /
+// helmChartInflationGenerator / a HelmChartInflationGenerator plugin file).
+func chartHomes18(t *tree18, initial filesys.FileSystem) map[string][]string {
+	out := map[string][]string{}
+	add := func(rootDir, entry string) {
+		p := entry
+		if p == "" {
+			p = types.HelmDefaultHome
+		}
+		if filepath.IsAbs(p) {
+			return
+		}
+		src := filepath.Join(rootDir, p)
+		if initial.IsDir(src) {
+			out[rootDir] = append(out[rootDir], src)
+		}
+	}
+	for p, c := range t.Files {
+		if !isKustName(filepath.Base(p)) {
+			continue
+		}
+		k, ok := parseKust18([]byte(c))
+		if !ok {
+			continue
+		}
+		d := filepath.Dir(p)
+		if k.HelmGlobals != nil {
+			add(d, k.HelmGlobals.ChartHome)
+		} else if len(k.HelmCharts) > 0 {
+			add(d, "")
+		}
+		for _, h := range k.HelmChartInflationGenerator { //nolint:staticcheck
+			add(d, h.ChartHome)
+		}
+		var plugins []string
+		plugins = append(plugins, k.Generators...)
+		plugins = append(plugins, k.Transformers...)
+		plugins = append(plugins, k.Validators...)
+		for _, e := range plugins {
+			if isRes18([]byte(e)) || filepath.IsAbs(e) {
+				continue
+			}
+			pc, ok := t.Files[filepath.Join(d, e)]
+			if !ok || !isRes18([]byte(pc)) {
+				continue
+			}
+			rm, err := rf18.NewResMapFromBytes([]byte(pc))
+			if err != nil {
+				continue
+			}
+			for _, res := range rm.Resources() {
+				if res.GetApiVersion() == "builtin" && res.GetKind() == "HelmChartInflationGenerator" {
+					home := ""
+					if v, err := res.Pipe(kyaml.Lookup("chartHome")); err == nil && v != nil {
+						home = v.YNode().Value
+					}
+					add(d, home)
+				}
+			}
+		}
+	}
+	return out
 }
 
 // faultedEvent returns the event that was made to fail (nil when none).
@@ -739,6 +850,8 @@ func laws18(r *Run, t *tree18, tb *tables18, g geo18, initial []fsEntry, run *lo
 				class = "C18/newdir-left:fatal-cleanedRelativePath"
 			case run.Cls == kPanic && strings.Contains(run.Msg, "unable to establish validated root reference"):
 				class = "C18/newdir-left:panic-localizeRoot-confirm"
+			case run.Cls == kPanic && strings.Contains(run.Msg, "unable to confirm validated directory"):
+				class = "C18/newdir-left:panic-copyChartHome-confirm"
 			}
 			viol("all_or_nothing", class, fmt.Sprintf("newDir %q left behind after %s (fault %d at %v): %.160s", g.absNewDir, run.Cls, run.Fault, fe, run.Msg))
 			r.Count("law", "all-or-nothing:"+class)
@@ -748,6 +861,58 @@ func laws18(r *Run, t *tree18, tb *tables18, g geo18, initial []fsEntry, run *lo
 		return
 	}
 	// ---- successful runs
+	if fe != nil && fe.Op == "WriteFile" {
+		// every WriteFile of the localizer writes a file the copy needs: a failed one can never be ignored
+		viol("all_or_nothing", "C18/success-despite-failed-write",
+			fmt.Sprintf("localize reported success although WriteFile %q failed (fault %d)", fe.Path, run.Fault))
+	}
+	// chart homes of every localized root are mirrored completely (files; empty directories are not
+	// checked: kyaml's in-memory Walk drops the error a directory callback returns)
+	for rootDir, homes := range chartHomes18(t, buildFS18(t)) {
+		relRoot, err := filepath.Rel(g.absScope, rootDir)
+		if err != nil || strings.HasPrefix(relRoot, "..") {
+			continue
+		}
+		localized := false
+		for _, kn := range []string{"kustomization.yaml", "kustomization.yml", "Kustomization"} {
+			if run.inner.Exists(filepath.Join(g.absNewDir, relRoot, kn)) {
+				localized = true
+			}
+		}
+		if !localized {
+			continue
+		}
+		for _, src := range homes {
+			relHome, err := filepath.Rel(g.absScope, src)
+			if err != nil || strings.HasPrefix(relHome, "..") {
+				continue
+			}
+			walked := false
+			for _, e := range run.Trace {
+				if e.Op == "Walk" && lexAbs(e.Path) == src {
+					walked = true
+				}
+			}
+			for _, e := range initial {
+				if e.IsDir || !insideDir(src, e.Path) {
+					continue
+				}
+				rel, _ := filepath.Rel(g.absScope, e.Path)
+				mirror := filepath.Join(g.absNewDir, rel)
+				b, rerr := run.inner.ReadFile(mirror)
+				if rerr == nil && string(b) == e.Content {
+					continue
+				}
+				class := "C18/incomplete-copy:chart-home"
+				if !walked {
+					class = "C18/incomplete-copy:chart-home-dst-exists"
+				}
+				viol("equivalent", class, fmt.Sprintf("localize succeeded (fault %d at %v) but chart home file %q is missing or different at %q", run.Fault, fe, e.Path, mirror))
+				break
+			}
+			r.Count("law", "chart-home-mirrored:checked")
+		}
+	}
 	if run.Dst != g.absNewDir {
 		viol("equivalent", "C18/returned-path", fmt.Sprintf("returned %q, newDir is %q", run.Dst, g.absNewDir))
 	}
@@ -946,6 +1111,13 @@ func processTree18(r *Run, t *tree18, toModel bool, ondiskBudget *int) {
 			r.Count("ondisk-subprocess", "not reproduced on disk (operation sequence differs)")
 		}
 	}
+	for _, homes := range chartHomes18(t, initialFS) {
+		for _, h := range homes {
+			if insideDir(h, g.absNewDir) && tb.inModel {
+				tb.inModel, tb.why = false, "newDir inside a chart home"
+			}
+		}
+	}
 	if !tb.inModel {
 		r.Meta.Skipped++
 		r.Count("model", "skipped:"+tb.why)
@@ -1026,15 +1198,47 @@ func loadCorpus18() []*tree18 {
 	return out
 }
 
+// knownClasses18 reads the finding classes recorded for C18 (known-findings.txt, findings.d/*.txt).
+func knownClasses18() map[string]bool {
+	out := map[string]bool{}
+	files, _ := filepath.Glob(filepath.Join(verifRoot(), "findings.d", "*.txt"))
+	files = append(files, filepath.Join(verifRoot(), "known-findings.txt"))
+	for _, f := range files {
+		data, err := os.ReadFile(f)
+		if err != nil {
+			continue
+		}
+		for _, line := range strings.Split(string(data), "\n") {
+			line = strings.TrimSpace(line)
+			if !strings.HasPrefix(line, "finding:") || !strings.Contains(line, "property=C18 ") {
+				continue
+			}
+			for _, w := range strings.Fields(line) {
+				if strings.HasPrefix(w, "class=") {
+					out[strings.TrimPrefix(w, "class=")] = true
+				}
+			}
+		}
+	}
+	return out
+}
+
+// replayC18 re-runs a recorded input on the implementation and evaluates every law oracle.
+//   - a replay of an ORACLE violation (kind "oracle", a specific fault index): that run only; violated
+//     when any law fails (so a known finding still shows as failing);
+//   - a replay of a CASE (kind "case": model and implementation disagree; or C18_ALL_FAULTS=1): the
+//     fault-free run and EVERY fault index; violated when a law fails with a class that is not a
+//     recorded finding — the disagreement then comes with a concrete failing input.
 func replayC18(path string) (bool, string, error) {
 	data, err := os.ReadFile(path)
 	if err != nil {
 		return false, "", err
 	}
 	var wrap struct {
-		Case *replay18 `json:"case"`
-		Tree *tree18   `json:"tree"`
-		Fault *int     `json:"fault"`
+		Kind  string    `json:"kind"`
+		Case  *replay18 `json:"case"`
+		Tree  *tree18   `json:"tree"`
+		Fault *int      `json:"fault"`
 	}
 	if err := json.Unmarshal(data, &wrap); err != nil {
 		return false, "", err
@@ -1060,28 +1264,44 @@ func replayC18(path string) (bool, string, error) {
 	tb := makeTables18(t)
 	r := NewRun("C18", "replay", 0, "", "")
 	var b strings.Builder
+	allFaults := wrap.Kind == "case" || os.Getenv("C18_ALL_FAULTS") != ""
 	faults := []int{rp.Fault}
-	if os.Getenv("C18_ALL_FAULTS") != "" {
+	if allFaults {
 		base := runLoc18(t, -1)
 		faults = []int{-1}
 		for i := 0; i < base.NFallible; i++ {
 			faults = append(faults, i)
 		}
 	}
+	var ob string
+	var oe error
+	built := false
 	for _, f := range faults {
 		run := runLoc18(t, f)
-		var ob string
-		var oe error
-		built := false
 		laws18(r, t, tb, g, initial, run, &ob, &oe, &built)
 		fmt.Fprintf(&b, "target=%q scope=%q newDir=%q fault=%d faulted=%v outcome=%s dst=%q msg=%.200s\n", t.Target, t.Scope, t.NewDir, f, run.Faulted, run.Cls, run.Dst, run.Msg)
 		fmt.Fprintf(&b, "newDir %q exists afterwards: %v\n", g.absNewDir, run.inner.Exists(g.absNewDir))
-		for i, e := range run.Trace {
-			fmt.Fprintf(&b, "  %3d %-10s %-50s %v\n", i, e.Op, e.Path, e.Ok)
+		if !allFaults || f < 0 {
+			for i, e := range run.Trace {
+				fmt.Fprintf(&b, "  %3d %-10s %-50s %v\n", i, e.Op, e.Path, e.Ok)
+			}
 		}
 	}
-	for _, v := range r.Meta.Violations {
-		fmt.Fprintf(&b, "law %s violated, class %s: %s\n", v.Law, v.Class, v.Detail)
+	known := map[string]bool{}
+	if allFaults {
+		known = knownClasses18()
 	}
-	return len(r.Meta.Violations) > 0, b.String(), nil
+	violated := false
+	var tail, fresh strings.Builder
+	for _, v := range r.Meta.Violations {
+		if known[v.Class] {
+			fmt.Fprintf(&tail, "law %s violated, class %s (recorded finding): %s\n", v.Law, v.Class, v.Detail)
+		} else {
+			violated = true
+			fmt.Fprintf(&fresh, "law %s violated, class %s: %s\n", v.Law, v.Class, v.Detail)
+		}
+	}
+	tail.WriteString(fresh.String())
+	// the verdict lines go last: the caller keeps only the tail of the output
+	return violated, b.String() + tail.String(), nil
 }
